@@ -59,7 +59,7 @@ Proof. rewrite starts_app. unfold starts at 2. cbn [flat_map]. rewrite app_nil_r
 Lemma inv_step st h e st' : Inv st h -> exec st e = Some st' -> Inv st' (h ++ [e]).
 Proof.
   intros [N I C D] H. pose proof (starts_snoc h e) as Hs.
-  destruct e as [v|v|n|n|n|n| | |i res]; cbn [exec] in H; lazy beta iota in Hs; try rewrite app_nil_r in Hs.
+  destruct e as [v|v|n|n|n|n|k| | |i res]; cbn [exec] in H; lazy beta iota in Hs; try rewrite app_nil_r in Hs.
   - (* EStart *)
     destruct (up st && match sigs v with [] => false | _ => true end); [|discriminate]. injection H as <-.
     split; rewrite Hs; cbn [next infl committed dur].
@@ -91,7 +91,8 @@ Proof.
   - destruct (up st && _); [|discriminate]. injection H as <-. split; rewrite Hs; assumption.
   - (* ECrash *)
     destruct (up st); [|discriminate]. injection H as <-. split; rewrite Hs; cbn [next infl committed dur]; [exact N|intros t []|exact C|exact D].
-  - destruct (up st); [discriminate|]. injection H as <-. split; rewrite Hs; assumption.
+  - destruct (up st); [discriminate|]. destruct (_ <? _); [|discriminate]. injection H as <-. split; rewrite Hs; assumption.
+  - destruct (up st); [discriminate|]. destruct (_ <? _); [discriminate|]. injection H as <-. split; rewrite Hs; assumption.
   - destruct (up st && _); [|discriminate]. injection H as <-. split; rewrite Hs; assumption.
 Qed.
 
@@ -113,7 +114,7 @@ Proof. induction a as [|e a IH]; intros b st; [reflexivity|]. cbn [app run_evs].
 (* what became durable stays durable: no event — in particular no crash — removes a transaction from the committed set *)
 Lemma committed_step st e st' n : exec st e = Some st' -> In n (committed st) -> In n (committed st').
 Proof.
-  intros H Hn. destruct e as [v|v|m|m|m|m| | |i res]; cbn [exec] in H;
+  intros H Hn. destruct e as [v|v|m|m|m|m|k| | |i res]; cbn [exec] in H;
     repeat match type of H with
            | (if ?c then _ else _) = Some _ => destruct c; try discriminate
            | match ?c with Some _ => _ | None => _ end = Some _ => destruct c; try discriminate
@@ -186,15 +187,29 @@ Proof.
   rewrite Forall_forall in W. symmetry. apply key_inj; [exact Hi|apply wf_idwf, W; exact Hin|exact Hk].
 Qed.
 
-(* the store always reopens after a kill, with exactly the durable contents it had *)
-Theorem reopens_after_crash st st' : exec st ECrash = Some st' ->
-  exists st'', exec st' EReopen = Some st'' /\ dur st'' = dur st /\ up st'' = true /\ infl st'' = [].
+(* db.Open makes more attempts than a kill can have left damaged files, whatever their number (shape of db.go's loop bound) *)
+Lemma open_attempts_suffice d : 0 <= d -> d < db_open_attempts d.
+Proof. intros H. unfold db_open_attempts. lia. Qed.
+
+(* the store always reopens after a kill — however many zero-length log files the kill left — with exactly the durable
+   contents it had *)
+Theorem reopens_after_crash st k st' : exec st (ECrash k) = Some st' ->
+  exists st'', exec st' EReopen = Some st'' /\ dur st'' = dur st /\ up st'' = true /\ infl st'' = [] /\ damaged st'' = 0%nat.
 Proof.
-  cbn [exec]. destruct (up st); [|discriminate]. intros H. injection H as <-. cbn [exec up]. eexists. split; [reflexivity|]. repeat split.
+  cbn [exec]. destruct (up st); [|discriminate]. intros H. injection H as <-. cbn [exec up damaged].
+  destruct (Z.ltb_spec (Z.of_nat k) (db_open_attempts (Z.of_nat k))) as [_|Hge]; [|pose proof (open_attempts_suffice (Z.of_nat k) ltac:(lia)); lia].
+  eexists. split; [reflexivity|]. repeat split.
 Qed.
 
-(* a kill can happen at any moment the process runs *)
-Theorem crash_always_possible st : up st = true -> exists st', exec st ECrash = Some st'.
+(* ... and db.Open never returns an error on a store a kill left behind *)
+Theorem reopen_never_fails st k st' : exec st (ECrash k) = Some st' -> exec st' EReopenFail = None.
+Proof.
+  cbn [exec]. destruct (up st); [|discriminate]. intros H. injection H as <-. cbn [exec up damaged].
+  destruct (Z.ltb_spec (Z.of_nat k) (db_open_attempts (Z.of_nat k))) as [_|Hge]; [reflexivity|pose proof (open_attempts_suffice (Z.of_nat k) ltac:(lia)); lia].
+Qed.
+
+(* a kill can happen at any moment the process runs, and may leave any number of damaged files *)
+Theorem crash_always_possible st k : up st = true -> exists st', exec st (ECrash k) = Some st'.
 Proof. intros H. cbn [exec]. rewrite H. eexists. reflexivity. Qed.
 
 (* an unsigned VAA never reaches the store *)
@@ -223,10 +238,10 @@ Proof.
     rewrite H2. change (store_all (dur st) (v :: vs)) with (store_all (store_step (dur st) v) vs).
     unfold store_step, store_vaa. rewrite Es. reflexivity.
   - set (s1 := {| dur := dur st; infl := {| t_id := next st; t_key := key (id_of v); t_val := marshal v |} :: infl st; next := S (next st);
-                  committed := committed st; aborted := aborted st; up := true |}).
+                  committed := committed st; aborted := aborted st; damaged := damaged st; up := true |}).
     assert (E1 : exec st (EStart v) = Some s1) by (cbn [exec]; rewrite U, Es; reflexivity).
     set (s2 := {| dur := put (dur st) (key (id_of v)) (marshal v); infl := drop_txn (next st) (infl s1); next := S (next st);
-                  committed := next st :: committed st; aborted := aborted st; up := true |}).
+                  committed := next st :: committed st; aborted := aborted st; damaged := damaged st; up := true |}).
     assert (E2 : exec s1 (ECommit (next st)) = Some s2).
     { cbn [exec]. unfold s1 at 1 2. cbn [up infl find_txn t_id]. rewrite Nat.eqb_refl. reflexivity. }
     assert (E3 : exec s2 (EAck (next st)) = Some s2).
@@ -267,7 +282,7 @@ Proof.
   intros [N I C D] [JC JG] W H. pose proof (starts_snoc h e) as Hs. pose proof (commits_snoc h e) as Hc.
   assert (Same : forall i, starts (h ++ [e]) = starts h -> commits (h ++ [e]) = commits h -> last_committed (h ++ [e]) i = last_committed h i).
   { intros i E1 E2. unfold last_committed, stores_id. rewrite E1, E2. reflexivity. }
-  destruct e as [v|v|n|n|n|n| | |i0 res]; cbn [exec] in H; lazy beta iota in Hs, Hc; try rewrite app_nil_r in Hs.
+  destruct e as [v|v|n|n|n|n|k| | |i0 res]; cbn [exec] in H; lazy beta iota in Hs, Hc; try rewrite app_nil_r in Hs.
   - (* EStart: one more started VAA, nothing committed *)
     destruct (up st && _); [|discriminate]. injection H as <-. split; cbn [committed dur]; [rewrite Hc; exact JC|].
     intros i Hi. rewrite (JG i Hi). f_equal. unfold last_committed. rewrite Hc.
@@ -292,7 +307,8 @@ Proof.
   - destruct (up st && _); [|discriminate]. injection H as <-. split; [rewrite Hc; exact JC|]. intros i Hi. rewrite (Same i Hs Hc). apply JG. exact Hi.
   - destruct (up st && _); [|discriminate]. injection H as <-. split; [rewrite Hc; exact JC|]. intros i Hi. rewrite (Same i Hs Hc). apply JG. exact Hi.
   - destruct (up st); [|discriminate]. injection H as <-. split; cbn [committed dur]; [rewrite Hc; exact JC|]. intros i Hi. rewrite (Same i Hs Hc). apply JG. exact Hi.
-  - destruct (up st); [discriminate|]. injection H as <-. split; cbn [committed dur]; [rewrite Hc; exact JC|]. intros i Hi. rewrite (Same i Hs Hc). apply JG. exact Hi.
+  - destruct (up st); [discriminate|]. destruct (_ <? _); [|discriminate]. injection H as <-. split; cbn [committed dur]; [rewrite Hc; exact JC|]. intros i Hi. rewrite (Same i Hs Hc). apply JG. exact Hi.
+  - destruct (up st); [discriminate|]. destruct (_ <? _); [discriminate|]. injection H as <-. split; cbn [committed dur]; [rewrite Hc; exact JC|]. intros i Hi. rewrite (Same i Hs Hc). apply JG. exact Hi.
   - destruct (up st && _); [|discriminate]. injection H as <-. split; [rewrite Hc; exact JC|]. intros i Hi. rewrite (Same i Hs Hc). apply JG. exact Hi.
 Qed.
 
